@@ -24,6 +24,8 @@ PROP_GROUPS = {
     "C14": ["proc"], "C15": ["proc"], "C16": ["proc"], "C17": ["proc"], "C18": ["proc"], "C19": ["proc"],
 }
 PROP_GROUPS["C06"] = PROP_GROUPS["C06"] + ["proc"]
+for _p in ("C06", "C10", "C12", "C13", "C20"):
+    PROP_GROUPS[_p] = PROP_GROUPS[_p] + ["cli"]
 
 ASSUME = {
     "codec": ["numbers are canonical decimal strings in the model (TLC integers are 32 bit); JSON values of metas are sampled by class in the store/http groups, not enumerated"],
@@ -39,6 +41,12 @@ ASSUME = {
     "http": ["requests are raw HTTP/1.1 over the unix socket, one connection per request (Connection: close)",
              "topics sent in the request line are URL-safe ASCII; NUL topics reach the server only through POST /import",
              "a rejected append may leave an orphan CAS object; 'changes nothing' means frames, indexes and registry"],
+    "cli": ["the server side is xs::api::serve inside the harness worker (virtual clock, gated collector), the client side is the "
+            "unmodified `xs` binary built from /repo's working tree",
+            "`xs cat --sse` is not used (the flag has no effect: two Accept headers, the server answers the first); a call that "
+            "reports success and prints nothing (unflushed stdout, about 1 in 5000 on a loaded machine) ends the behaviour - both "
+            "are observations outside the listed properties (DESIGN 0.5)",
+            "topics are URL-safe ASCII without NUL (an argument cannot carry one); malformed requests stay with the raw HTTP group"],
     "conc": ["TLC's verdict on XsConcurrent holds for the constants of the MC_conc_*.cfg files (2 writers, <= 3 frames each, B, M <= 3)",
              "schedules are explored at the granularity of the xs_verif gates; fjall and tokio internals are not gated",
              "the observer uses only the order of events that are really ordered (returned-before-called, delivery order)"],
